@@ -50,6 +50,10 @@ func directed() []tcase {
 	return []tcase{
 		// the plain merge path: two writers on an empty store, no race: the second merges into the new root
 		{"merge-empty", occ4.Scenario{Slot: 8, Writers: []occ4.WriterSpec{{Ops: add(1, 2)}, {Ops: add(7)}}}, []int{0, 1, 0, 0, 1, 1, 1, 1}, false},
+		// ONE conflict round by a failed node VERSION check: B commits completely between A's read and A's commit; A
+		// rolls its attempt back (the value blobs it wrote stay), refetches, merges, commits
+		{"one-round", occ4.Scenario{Slot: 8, Init: [][]occ4.Op{add(10, 20)}, Writers: []occ4.WriterSpec{
+			{Ops: []occ4.Op{{Kind: "upd", Key: 10, Val: 110}, {Kind: "add", Key: 1, Val: 1}}}, {Ops: add(2)}}}, []int{0, 1, 1, 1, 0, 0, 0, 0, 0, 0}, false},
 		// TWO conflict rounds in one commit loop: A parks before its node lock, B commits into the same leaf, A conflicts
 		// and refetches, parks before DualLock, C commits into the same leaf, A conflicts again and refetches again
 		{"two-rounds", occ4.Scenario{Slot: 8, Init: [][]occ4.Op{add(10, 20)}, Writers: []occ4.WriterSpec{{Ops: add(1)}, {Ops: add(2)}, {Ops: add(3)}}},
@@ -182,7 +186,43 @@ func runCase(ctx context.Context, s *hx.Session, tc tcase) error {
 			s.Fail("C04/commit-failed:"+r, "a writer with changes disjoint from all others did not commit", detail)
 		}
 	}
-	if strings.Join(final, " ") != strings.Join(want, " ") {
+	s.Hit("values:" + tc.sc.ValMode())
+	if o.OrphanBlobs > 0 {
+		s.Hit("orphan_blobs_after_history")
+		// a removed item's value blob stays on disk in a separate-segment store even without any conflict (seen in
+		// every generated case with a remove, conflict or not: C11's/C19's territory, reported); what C04 looks for
+		// is value blobs orphaned BY A CONFLICT SCHEDULE: more orphans than removes
+		removes := 0
+		for _, ops := range tc.sc.Init {
+			for _, op := range ops {
+				if op.Kind == "rm" {
+					removes++
+				}
+			}
+		}
+		for _, w := range tc.sc.Writers {
+			for _, op := range w.Ops {
+				if op.Kind == "rm" {
+					removes++
+				}
+			}
+		}
+		if o.OrphanBlobs > removes {
+			s.Fail("C04/blobs-orphaned-by-conflict-schedule", "after all writers finished there are more unreferenced blob files than removed items: a conflict round left blobs behind", fmt.Sprintf("%s orphans=%d removes=%d", detail, o.OrphanBlobs, removes))
+		}
+		s.HitN("orphan_blob_files", o.OrphanBlobs)
+	}
+	if o.WalkProblem != "" {
+		s.Hit("walk_problem")
+	}
+	lost := false
+	for _, it := range final {
+		lost = lost || strings.HasSuffix(it, "=!lost")
+	}
+	if lost {
+		// every writer's Commit returned, the key is in the store, and a cold reader cannot read its value
+		s.Fail("C04/value-unreadable-after-commit", "a key committed to a separate-segment store has no readable value: its value blob is gone from the blob store", detail+" want="+strings.Join(want, " "))
+	} else if strings.Join(final, " ") != strings.Join(want, " ") {
 		sig := "C04/final-state-differs"
 		for w, r := range o.Results {
 			if r != "ok" {
@@ -228,6 +268,25 @@ func run(o hx.RunOpts) error {
 	for _, tc := range directed() {
 		if err := runCase(ctx, s, tc); err != nil {
 			return err
+		}
+		if tc.root {
+			continue
+		}
+		// the same schedule on a store that keeps values in a separate segment (value blobs are written by
+		// commitTrackedItemsValues in every attempt, kept by the in-loop rollback, marked persisted by the replay),
+		// and for the conflict-round cases also with globally cached values
+		seg := tc
+		seg.name += "/segment"
+		seg.sc.SepVals = true
+		if err := runCase(ctx, s, seg); err != nil {
+			return err
+		}
+		if tc.name == "one-round" || tc.name == "two-rounds" {
+			seg.name += "+cache"
+			seg.sc.ValCache = true
+			if err := runCase(ctx, s, seg); err != nil {
+				return err
+			}
 		}
 	}
 	n := o.N(150, 1500)
